@@ -259,59 +259,7 @@ def check(ctx):
     ctx.ob("C01.R4", outd, "Node.outdated reports the cached flag (True outside a model)", ok)
 
     # ------------------------------------------------------------------ R5
-    mc = repo.cls(MODEL)
-    init = method(repo, mc, "__init__")
-    ri = evaluate(repo, init)
-    calls = ri.calls
-    heap0 = {loc[2]: val for loc, val, _, _ in ri.stores if loc[0] == "a" and loc[1] == SELF}
-    # reads of self._nodes after the constructor stored it see the stored term
-    nodes_t = ("call", ("a", ri.env.heap.get(("a", SELF, "_nodes"), ("a", SELF, "_nodes")),
-                        "values"), (), ())
-
-    def idx_of(pred):
-        return [i for i, (t, _, _) in enumerate(calls) if pred(t)]
-
-    i_clear = idx_of(lambda t: t[1][0] == "a" and t[1][2] == "_clear_outputs"
-                     and t[1][1] == ("iter", nodes_t))
-    i_set = idx_of(lambda t: t[1][0] == "a" and t[1][2] == "_set_model"
-                   and t[1][1] == ("iter", nodes_t))
-    inp_it = ("call", ("a", ("iter", nodes_t), "all_input_nodes"), (), ())
-    i_add = idx_of(lambda t: t[1][0] == "a" and t[1][2] == "_add_output"
-                   and t[1][1] == ("iter", inp_it) and t[2] == (("iter", nodes_t),))
-    ok = (len(i_clear) == 1 and len(i_add) == 1 and i_clear[0] < i_add[0]
-          and len(i_set) == 1 and i_set[0] < i_add[0])
-    # the clear loop must be a separate, earlier loop (all cleared before any add)
-    if ok:
-        ok = calls[i_clear[0]][1].lineno < calls[i_add[0]][1].lineno and \
-            _different_loops(init.node, calls[i_clear[0]][1], calls[i_add[0]][1])
-    ctx.ob("C01.R5", init, "all outputs are cleared (and the model registered) for every "
-                           "node before input._add_output(node) is called for every input "
-                           "of every node", ok,
-           detail=f"clear@{i_clear} set_model@{i_set} add@{i_add}", stmt="output wiring")
-    heap = {loc[2]: val for loc, val, _, _ in ri.stores if loc[0] == "a" and loc[1] == SELF}
-    ng = heap.get("_node_graph")
-    sn = heap.get("_sorted_nodes")
-    ok = (ng == ("call", ("a", SELF, "_build_node_graph"), (nodes_t,), ())
-          and sn == ("call", ("n", "list"),
-                     (("call", ("g", "networkx.topological_sort"), (ng,), ()),), ()))
-    ctx.ob("C01.R5", init, "_sorted_nodes = list(topological_sort(node graph of all nodes))",
-           ok, detail=short(sn or ()), stmt="sorted nodes " + pretty(sn or ())[:120])
-    bng = method(repo, mc, "_build_node_graph")
-    rg = evaluate(repo, bng)
-    ext = [t for t, _, _ in rg.calls if t[1][0] == "a" and t[1][2] == "extend"]
-    ok = False
-    if len(ext) == 1 and ext[0][2] and ext[0][2][0][0] == "comp":
-        comp = ext[0][2][0]
-        node_t = ("iter", n("nodes"))
-        src = ("call", ("a", node_t, "all_input_nodes"), (), ())
-        ok = comp[3][0][1] == src and comp[2] == ("tuple", (("iter", src), node_t))
-    ctx.ob("C01.R5", bng, "graph edges are (input, node) for every input in "
-                          "node.all_input_nodes() -- the same relation as the outputs", ok,
-           detail=short(ext[0]) if ext else "", stmt="graph edges")
-    sweep = [t for t, _, cond in calls if t[1][0] == "a" and t[1][2] == "update"
-             and t[1][1] == ("iter", sn if sn else ())]
-    ctx.ob("C01.R5", init, "the initial sweep updates every node in sorted order",
-           len(sweep) == 1, detail=f"{len(sweep)} sweep call(s)")
+    mc, sn = wiring_obligations(ctx, "C01.R5")
 
     # ------------------------------------------------------------------ R6
     upd = method(repo, mc, "update")
@@ -458,3 +406,65 @@ def _different_loops(fnode, call_a, call_b) -> bool:
         return out
     la, lb = enclosing_loops(call_a), enclosing_loops(call_b)
     return bool(la) and bool(lb) and la[0] is not lb[0]
+
+
+def wiring_obligations(ctx, rule):
+    """Outputs are the inverse of inputs; the sweep order is topological (shared with
+    C15.R4)."""
+    repo = ctx.repo
+    base = repo.cls(NODE)
+    mc = repo.cls(MODEL)
+    init = method(repo, mc, "__init__")
+    ri = evaluate(repo, init)
+    calls = ri.calls
+    heap0 = {loc[2]: val for loc, val, _, _ in ri.stores if loc[0] == "a" and loc[1] == SELF}
+    # reads of self._nodes after the constructor stored it see the stored term
+    nodes_t = ("call", ("a", ri.env.heap.get(("a", SELF, "_nodes"), ("a", SELF, "_nodes")),
+                        "values"), (), ())
+
+    def idx_of(pred):
+        return [i for i, (t, _, _) in enumerate(calls) if pred(t)]
+
+    i_clear = idx_of(lambda t: t[1][0] == "a" and t[1][2] == "_clear_outputs"
+                     and t[1][1] == ("iter", nodes_t))
+    i_set = idx_of(lambda t: t[1][0] == "a" and t[1][2] == "_set_model"
+                   and t[1][1] == ("iter", nodes_t))
+    inp_it = ("call", ("a", ("iter", nodes_t), "all_input_nodes"), (), ())
+    i_add = idx_of(lambda t: t[1][0] == "a" and t[1][2] == "_add_output"
+                   and t[1][1] == ("iter", inp_it) and t[2] == (("iter", nodes_t),))
+    ok = (len(i_clear) == 1 and len(i_add) == 1 and i_clear[0] < i_add[0]
+          and len(i_set) == 1 and i_set[0] < i_add[0])
+    # the clear loop must be a separate, earlier loop (all cleared before any add)
+    if ok:
+        ok = calls[i_clear[0]][1].lineno < calls[i_add[0]][1].lineno and \
+            _different_loops(init.node, calls[i_clear[0]][1], calls[i_add[0]][1])
+    ctx.ob(rule, init, "all outputs are cleared (and the model registered) for every "
+                           "node before input._add_output(node) is called for every input "
+                           "of every node", ok,
+           detail=f"clear@{i_clear} set_model@{i_set} add@{i_add}", stmt="output wiring")
+    heap = {loc[2]: val for loc, val, _, _ in ri.stores if loc[0] == "a" and loc[1] == SELF}
+    ng = heap.get("_node_graph")
+    sn = heap.get("_sorted_nodes")
+    ok = (ng == ("call", ("a", SELF, "_build_node_graph"), (nodes_t,), ())
+          and sn == ("call", ("n", "list"),
+                     (("call", ("g", "networkx.topological_sort"), (ng,), ()),), ()))
+    ctx.ob(rule, init, "_sorted_nodes = list(topological_sort(node graph of all nodes))",
+           ok, detail=short(sn or ()), stmt="sorted nodes " + pretty(sn or ())[:120])
+    bng = method(repo, mc, "_build_node_graph")
+    rg = evaluate(repo, bng)
+    ext = [t for t, _, _ in rg.calls if t[1][0] == "a" and t[1][2] == "extend"]
+    ok = False
+    if len(ext) == 1 and ext[0][2] and ext[0][2][0][0] == "comp":
+        comp = ext[0][2][0]
+        node_t = ("iter", n("nodes"))
+        src = ("call", ("a", node_t, "all_input_nodes"), (), ())
+        ok = comp[3][0][1] == src and comp[2] == ("tuple", (("iter", src), node_t))
+    ctx.ob(rule, bng, "graph edges are (input, node) for every input in "
+                          "node.all_input_nodes() -- the same relation as the outputs", ok,
+           detail=short(ext[0]) if ext else "", stmt="graph edges")
+    sweep = [t for t, _, cond in calls if t[1][0] == "a" and t[1][2] == "update"
+             and t[1][1] == ("iter", sn if sn else ())]
+    ctx.ob(rule, init, "the initial sweep updates every node in sorted order",
+           len(sweep) == 1, detail=f"{len(sweep)} sweep call(s)")
+
+    return mc, sn
